@@ -27,7 +27,9 @@ RULE = ("(a) mode equivalence: seeded random call sequences (length 25, whole pu
         "USE_MULTIPROCESSING=True): short histories of 3-4 processes x 2-3 calls over 2 pids, 2 contents, 1 format "
         "with seeded micro-delays at file-system calls; every call is recorded at the client boundary on "
         "CLOCK_MONOTONIC and a Wing-Gong search against the reference model decides linearizability; exit statuses "
-        "must be 0, no worker may hang, the manager-backed lists must be empty afterwards. distinct_nontrivial = "
+        "must be 0, no worker may hang, the manager-backed lists must be empty afterwards. (d) error paths: every C13 fault "
+        "site (EIO, one-off / persistent) injected into the same call in both modes; outcome, problems and API-visible "
+        "post-state must be equal. distinct_nontrivial = "
         "distinct (a) (state, call shape) transitions compared + (b) (scenario, interleaving) + (c) histories.")
 ASSUMPTIONS = ["cross-process interleavings cannot be controlled (the kernel schedules them), only provoked: part (c) is "
                "stress + history checking and is reported as such",
@@ -60,11 +62,14 @@ def shards(tier, seed):
         out.append(("sched", c, 1 if tier == "quick" else 2, 3 if tier == "quick" else 20, s))
     for s in split_seeds(seed * 1000 + 163, n):
         out.append(("procs", 8 if tier == "quick" else 320, s))
+    from .. import faultengine as F
+    for c in chunk(list(range(len(F.CASES))), n):
+        out.append(("faults", c, tier))
     return out
 
 
 def min_required(tier):
-    return {"equiv_calls_compared": 2000, "schedules": 3000, "process_histories": 100, "process_calls_recorded": 700}
+    return {"fault_runs_compared": 200, "equiv_calls_compared": 2000, "schedules": 3000, "process_histories": 100, "process_calls_recorded": 700}
 
 
 def mp_store_world(scratch, name, contents, docs, pids, fmts):
@@ -244,9 +249,51 @@ def classify_history(records, final, lay, shape, model):
     return dict(shape, symptom="history-not-linearizable", mechanism=FR.diagnose(records, model, final, lay))
 
 
+def run_faults(case_idxs, tier):
+    """(d) mode equivalence on the error paths: the C13 fault sites, injected in both modes."""
+    import errno
+    from .. import faultengine as F
+    res = ShardResult()
+    for ci in case_idxs:
+        scratch = new_scratch("c16d")
+        try:
+            cases = {m: F.Case(ci, __import__("os").path.join(scratch, m), mode=m) for m in ("th", "mp")}
+            sites = cases["th"].sites(F.FAULT_KINDS)
+            if [o.kind for o in cases["th"].ops] != [o.kind for o in cases["mp"].ops]:
+                res.violation({"symptom": "mode-operation-trace-differs", "case": cases["th"].label},
+                              {"engine": "C16d", "case": cases["th"].label})
+                continue
+            for site in sites:
+                for persistent in ((False, True) if tier == "thorough" else (site % 2 == 0,)):
+                    r = {m: F.run_fault(cases[m], site, errno.EIO, persistent) for m in ("th", "mp")}
+                    if r["th"]["fired"] is None:
+                        continue
+                    res.evaluations += 1
+                    res.count("fault_runs_compared")
+                    res.distinct.add(repr(("d", ci, site, persistent)))
+                    key = {m: (r[m]["outcome"].ok, r[m]["outcome"].exc_name, sorted(p[0] for p in r[m]["problems"]),
+                               cases[m].api_view(cases[m].abstract(cases[m].rundir))) for m in r}
+                    if key["th"] != key["mp"]:
+                        from .C13 import site_class
+                        res.violation({"symptom": "mode-outcome-differs", "under": "injected-fault", "case": cases["th"].label,
+                                       "site": site_class(cases["th"], r["th"]["fired"]), "threading": r["th"]["outcome"].brief(),
+                                       "multiprocessing": r["mp"]["outcome"].brief()},
+                                      {"engine": "C16d", "case_index": ci, "site": site, "persistent": persistent,
+                                       "th_problems": [p[0] for p in r["th"]["problems"]],
+                                       "mp_problems": [p[0] for p in r["mp"]["problems"]], "mp_msg": r["mp"]["outcome"].msg})
+            clear_atexit_tmp_handlers()
+        except Inconclusive as inc:
+            res.inconclusive.append(str(inc))
+        finally:
+            rmtree(scratch)
+    return res
+
+
 def run_shard(kind, *args):
     if kind == "equiv":
         return run_equiv(*args)
+    if kind == "faults":
+        return run_faults(*args)
     if kind == "procs":
         return run_procs(*args)
     scns, bound, n_random, sub_seed = args
